@@ -49,7 +49,9 @@ P = {'id': 'C05',
               'cs_prefix_query_exact',
               'cs_keys_no_duplicates',
               'cs_clone_preserves',
-              'cs_remove_refuted'],
+              'cs_remove_refuted',
+              'da_refines_set_noop_remove',
+              'cs_refines_set_noop_remove'],
  'trusted': ['modelled (M+S): src/fsa/zipora_trie.rs Patricia storage as written, i.e. an uncompressed 256-ary trie over a node vector '
              '(insert_patricia_actual, contains_patricia_actual, remove_patricia_actual incl. the bottom-up cleanup, keys_patricia_actual / '
              'collect_keys_patricia_recursive, keys_with_prefix_patricia_actual, impl Trie::insert num_keys, ZiporaTrie::remove, impl FiniteStateAutomaton '
